@@ -317,17 +317,16 @@ Record Good (ch : chan) : Prop := {
 Section Contracts.
   Variable cpr : conn -> poll (result unit unit).
   Variable sreq : conn -> send_result.
-  Variable mkpr : poll (result unit cerr).
-  Hypothesis HC : stack_contract cpr sreq mkpr.
+  Hypothesis HC : stack_contract cpr sreq.
 
-  Let pr_loop' := pr_loop cpr mkpr.
-  Let poll_ready' := poll_ready cpr mkpr.
-  Let serve' := serve cpr sreq mkpr.
-  Let serve_batch' := serve_batch cpr sreq mkpr.
-  Let ready_oneshot' := ready_oneshot cpr mkpr.
-  Let run_steps' := run_steps cpr sreq mkpr.
-  Let build' := build cpr mkpr.
-  Let run_with' := run_with cpr sreq mkpr.
+  Let pr_loop' := pr_loop cpr.
+  Let poll_ready' := poll_ready cpr.
+  Let serve' := serve cpr sreq.
+  Let serve_batch' := serve_batch cpr sreq.
+  Let ready_oneshot' := ready_oneshot cpr.
+  Let run_steps' := run_steps cpr sreq.
+  Let build' := build cpr.
+  Let run_with' := run_with cpr sreq.
 
   (* ------------------------------------------------------------ one poll_ready *)
   Definition connect_answer (w : world) : result conn cerr :=
@@ -337,7 +336,14 @@ Section Contracts.
     | UpDead => Err (mkErr (w_attempts w + 1) 0 Handshake)
     | UpGarbage => Ok Severed
     end.
-  Definition bump (w : world) : world := mkWorld (w_net w) (w_lat w) (w_attempts w + 1).
+  (* the world after one well-formed invocation of the connector: counted, and its readiness
+     protocol back at the start of a cycle *)
+  Definition bump (w : world) : world :=
+    mkWorld (w_net w) (w_lat w) (w_attempts w + 1) false (w_prl w) (w_prl w).
+  Definition set_pr_left (w : world) (p : nat) : world :=
+    mkWorld (w_net w) (w_lat w) (w_attempts w) (w_ready w) p (w_prl w).
+  (* between two served requests the connector is at the start of a cycle *)
+  Definition Canon (w : world) : Prop := w_ready w = false /\ w_pr_left w = w_prl w.
   (* a connect future never hands over a connection that hyper already reports closed *)
   Definition usable (r : result conn cerr) : Prop := forall c, r = Ok c -> c <> Closed.
   Lemma connect_answer_usable : forall w, usable (connect_answer w).
@@ -366,8 +372,8 @@ Section Contracts.
     unfold pr_loop'. destruct d as [|d'].
     - destruct r as [c|e]; simpl.
       + destruct c.
-        * rewrite (sc_ready_alive _ _ _ HC). reflexivity.
-        * rewrite (sc_ready_severed _ _ _ HC). reflexivity.
+        * rewrite (sc_ready_alive _ _ HC). reflexivity.
+        * rewrite (sc_ready_severed _ _ HC). reflexivity.
         * exfalso. exact (Hu Closed eq_refl eq_refl).
       + destruct (negb (hbc || lz)); reflexivity.
     - reflexivity.
@@ -376,17 +382,22 @@ Section Contracts.
   Lemma loop_idle : forall lf rc w,
     rc_state rc = Idle -> (3 <= lf)%nat ->
     pr_loop' lf rc w =
-      let rc1 := note_i2c rc in
-      match w_lat w with
-      | S d' => (set_state rc1 (Connecting (Fut d' (connect_answer w))), bump w, PrPending)
-      | O => let '(rc', p) := after_connect (set_state rc1 (Connecting (Fut O (connect_answer w)))) (connect_answer w) in
-             (rc', bump w, p)
+      match w_pr_left w with
+      | S p => (rc, set_pr_left w p, PrPending)      (* the connector is not ready yet *)
+      | O =>
+        let rc1 := note_i2c rc in
+        match w_lat w with
+        | S d' => (set_state rc1 (Connecting (Fut d' (connect_answer w))), bump w, PrPending)
+        | O => let '(rc', p) := after_connect (set_state rc1 (Connecting (Fut O (connect_answer w)))) (connect_answer w) in
+               (rc', bump w, p)
+        end
       end.
   Proof.
     intros lf rc w Hs Hlf. destruct lf as [|lf]; try lia.
-    unfold pr_loop'. cbn [pr_loop]. rewrite Hs.
-    rewrite (sc_mk_ready _ _ _ HC) at 1. cbn [make_service].
-    fold pr_loop'.
+    unfold pr_loop'. cbn [pr_loop]. rewrite Hs. unfold mk_poll_ready.
+    destruct (w_pr_left w) as [|p] eqn:Hp; [|reflexivity].
+    cbn [make_service w_ready w_net w_lat w_attempts w_prl].
+    fold pr_loop'. fold (bump w).
     rewrite (loop_connecting lf _ (bump w) (w_lat w) (connect_answer w));
       [| destruct rc; reflexivity | apply connect_answer_usable | lia].
     destruct rc as [st er hbc lz gh]; simpl in Hs; subst st.
@@ -398,7 +409,7 @@ Section Contracts.
     pr_loop' lf rc w = pr_loop' (pred lf) (set_state (set_hbc rc true) Idle) w.
   Proof.
     intros lf rc w Hs Hlf. destruct lf as [|lf]; try lia.
-    unfold pr_loop'. cbn [pr_loop pred]. rewrite Hs, (sc_ready_closed _ _ _ HC). reflexivity.
+    unfold pr_loop'. cbn [pr_loop pred]. rewrite Hs, (sc_ready_closed _ _ HC). reflexivity.
   Qed.
 
   Lemma loop_usable : forall lf rc w c,
@@ -408,8 +419,8 @@ Section Contracts.
     intros lf rc w c Hs Hc Hlf. destruct lf as [|lf]; try lia.
     unfold pr_loop'. cbn [pr_loop]. rewrite Hs.
     destruct c; try congruence.
-    - rewrite (sc_ready_alive _ _ _ HC). reflexivity.
-    - rewrite (sc_ready_severed _ _ _ HC). reflexivity.
+    - rewrite (sc_ready_alive _ _ HC). reflexivity.
+    - rewrite (sc_ready_severed _ _ HC). reflexivity.
   Qed.
 
   Lemma poll_ready_no_error : forall lf rc w, rc_error rc = None -> poll_ready' lf rc w = pr_loop' lf rc w.
@@ -430,6 +441,7 @@ Section Contracts.
       | (rc1, w', PrReadyOk) => finish_ready rc1 w'
       | (rc1, w', PrReadyErr e) => (mkChan rc1 (Some e), w', ServiceFailed e)
       | (rc1, w', PrPanic) => (mkChan rc1 None, w', Panic)
+      | (rc1, w', PrMisuse) => (mkChan rc1 None, w', ConnectorMisuse)
       | (rc1, w', PrSpin) => (mkChan rc1 None, w', OutOfFuel)
       end.
   Proof. reflexivity. Qed.
@@ -479,35 +491,38 @@ Section Contracts.
         destruct rc as [st er hbc lz gh]; simpl in *; subst; auto.
   Qed.
 
-  (* serving from Idle: one connector invocation, then the answer of the environment *)
-  Lemma serve_idle : forall f rc w,
+  (* serving from Idle: the connector is polled until Ready, invoked once, then the answer of the
+     environment *)
+  Lemma serve_idle : forall p f rc w,
     rc_state rc = Idle -> rc_error rc = None -> rc_hbc rc || rc_lazy rc = true ->
-    (w_lat w + 3 <= f)%nat ->
+    w_pr_left w = p -> (p + w_lat w + 3 <= f)%nat ->
     serve' f (mkChan rc None) w =
       (let '(ch, o) := served_after_connect
                          (set_state (note_i2c rc) (Connecting (Fut O (connect_answer w)))) (connect_answer w) in
        (ch, bump w, o)).
   Proof.
-    intros f rc w Hs He Hm Hf. destruct f as [|f]; try lia.
-    rewrite serve_S, poll_ready_no_error by assumption.
-    rewrite (loop_idle (S f) rc w Hs) by lia. cbv zeta.
-    destruct (w_lat w) as [|d] eqn:Hl.
-    - set (rc0 := set_state (note_i2c rc) (Connecting (Fut O (connect_answer w)))).
-      assert (Hm0 : rc_hbc rc0 || rc_lazy rc0 = true) by (destruct rc; exact Hm).
-      pose proof (serve_ready_connecting rc0 (bump w) (connect_answer w)) as E.
-      pose proof (after_connect_ready rc0 (connect_answer w) Hm0) as Hp.
-      destruct (after_connect rc0 (connect_answer w)) as [rc1 p]. simpl in Hp. subst p.
-      rewrite E; destruct rc; simpl in *; auto.
-    - rewrite (serve_connecting d f _ (bump w) (connect_answer w)); try lia;
-        try apply connect_answer_usable;
-        destruct rc as [st er hbc lz gh]; simpl in *; subst; auto.
+    induction p as [|p IH]; intros f rc w Hs He Hm Hp Hf; (destruct f as [|f]; try lia);
+      rewrite serve_S, poll_ready_no_error by assumption;
+      rewrite (loop_idle (S f) rc w Hs) by lia; rewrite Hp.
+    - cbv zeta. destruct (w_lat w) as [|d] eqn:Hl.
+      + set (rc0 := set_state (note_i2c rc) (Connecting (Fut O (connect_answer w)))).
+        assert (Hm0 : rc_hbc rc0 || rc_lazy rc0 = true) by (destruct rc; exact Hm).
+        pose proof (serve_ready_connecting rc0 (bump w) (connect_answer w)) as E.
+        pose proof (after_connect_ready rc0 (connect_answer w) Hm0) as Hq.
+        destruct (after_connect rc0 (connect_answer w)) as [rc1 q]. simpl in Hq. subst q.
+        rewrite E; destruct rc; simpl in *; auto.
+      + rewrite (serve_connecting d f _ (bump w) (connect_answer w)); try lia;
+          try apply connect_answer_usable;
+          destruct rc as [st er hbc lz gh]; simpl in *; subst; auto.
+    - rewrite (IH f rc (set_pr_left w p) Hs He Hm); [destruct w; reflexivity | reflexivity | cbn; lia].
   Qed.
 
-  Definition world_with (w : world) (n : N) : world := mkWorld (w_net w) (w_lat w) n.
+  Definition world_with (w : world) (n : N) : world :=
+    mkWorld (w_net w) (w_lat w) n false (w_prl w) (w_prl w).
 
   Lemma serve_idle_spec : forall f rc w,
     rc_state rc = Idle -> rc_error rc = None -> rc_hbc rc || rc_lazy rc = true ->
-    (w_lat w + 3 <= f)%nat ->
+    (w_pr_left w + w_lat w + 3 <= f)%nat ->
     exists ch',
       serve' f (mkChan rc None) w =
         (ch', world_with w (snd (fst (spec_call ANone (w_net w) (w_attempts w)))),
@@ -517,17 +532,17 @@ Section Contracts.
       rc_i2c (ch_rc ch') + w_attempts w =
         rc_i2c rc + snd (fst (spec_call ANone (w_net w) (w_attempts w))).
   Proof.
-    intros f rc w Hs He Hm Hf. rewrite (serve_idle f rc w Hs He Hm Hf).
+    intros f rc w Hs He Hm Hf. rewrite (serve_idle (w_pr_left w) f rc w Hs He Hm eq_refl Hf).
     unfold connect_answer. cbn [spec_call].
-    destruct w as [net lat n]. cbn [w_net w_attempts w_lat bump world_with].
+    destruct w as [net lat n rd pl prl]. cbn [w_net w_attempts w_lat w_prl bump world_with].
     destruct rc as [st er hbc lz gh]; simpl in *; subst.
     destruct net as [|r| |]; cbn; unfold sent_outcome;
-      rewrite ?(sc_send_alive _ _ _ HC), ?(sc_send_severed _ _ _ HC);
+      rewrite ?(sc_send_alive _ _ HC), ?(sc_send_severed _ _ HC);
       (eexists; split; [reflexivity|]; split; [constructor; simpl; auto|]; split; [reflexivity|]; simpl; lia).
   Qed.
 
   Lemma serve_spec : forall f ch w,
-    Good ch -> (w_lat w + 4 <= f)%nat ->
+    Good ch -> Canon w -> (w_lat w + w_prl w + 4 <= f)%nat ->
     exists ch',
       serve' f ch w = (ch', world_with w (snd (fst (spec_call (abs ch) (w_net w) (w_attempts w)))),
                        snd (spec_call (abs ch) (w_net w) (w_attempts w))) /\
@@ -536,7 +551,7 @@ Section Contracts.
       (rc_i2c (ch_rc ch') + w_attempts w =
        rc_i2c (ch_rc ch) + snd (fst (spec_call (abs ch) (w_net w) (w_attempts w)))).
   Proof.
-    intros f [rc fl] w [Hf He Hm Hq] Hfu. simpl in Hf, He, Hm, Hq. subst fl.
+    intros f [rc fl] w [Hf He Hm Hq] [Hrd Hpl] Hfu. simpl in Hf, He, Hm, Hq. subst fl.
     unfold abs. cbn [ch_rc].
     destruct (rc_state rc) as [|fut|c] eqn:Hs; [| contradiction |].
     - (* Idle *)
@@ -546,15 +561,15 @@ Section Contracts.
         destruct f as [|f]; try lia. rewrite serve_S, poll_ready_no_error by assumption.
         rewrite (loop_usable (S f) rc w Alive Hs) by (congruence || lia).
         destruct rc as [st er hbc lz gh]; simpl in *; subst. unfold finish_ready. cbn.
-        unfold sent_outcome. rewrite (sc_send_alive _ _ _ HC).
-        destruct w as [net lat n]. cbn.
+        unfold sent_outcome. rewrite (sc_send_alive _ _ HC).
+        destruct w as [net lat n rd pl prl]. simpl in Hrd, Hpl. subst rd pl. cbn.
         eexists; split; [reflexivity|]. split; [constructor; simpl; auto|]. split; [reflexivity|]. simpl. lia.
       + (* Severed: the request is sent and cancelled; within a batch the connection still looks usable *)
         destruct f as [|f]; try lia. rewrite serve_S, poll_ready_no_error by assumption.
         rewrite (loop_usable (S f) rc w Severed Hs) by (congruence || lia).
         destruct rc as [st er hbc lz gh]; simpl in *; subst. unfold finish_ready. cbn.
-        unfold sent_outcome. rewrite (sc_send_severed _ _ _ HC).
-        destruct w as [net lat n]. cbn.
+        unfold sent_outcome. rewrite (sc_send_severed _ _ HC).
+        destruct w as [net lat n rd pl prl]. simpl in Hrd, Hpl. subst rd pl. cbn.
         eexists; split; [reflexivity|]. split; [constructor; simpl; auto|]. split; [reflexivity|]. simpl. lia.
       + (* Closed: poll_ready falls through to Idle inside the same loop *)
         destruct f as [|f]; try lia. rewrite serve_S, poll_ready_no_error by assumption.
@@ -569,6 +584,7 @@ Section Contracts.
                         | (rc1, w', PrReadyOk) => finish_ready rc1 w'
                         | (rc1, w', PrReadyErr e) => (mkChan rc1 (Some e), w', ServiceFailed e)
                         | (rc1, w', PrPanic) => (mkChan rc1 None, w', Panic)
+                        | (rc1, w', PrMisuse) => (mkChan rc1 None, w', ConnectorMisuse)
                         | (rc1, w', PrSpin) => (mkChan rc1 None, w', OutOfFuel)
                         end).
         { rewrite serve_S, poll_ready_no_error by assumption. reflexivity. }
@@ -613,58 +629,68 @@ Section Contracts.
   Qed.
 
   (* the k queued requests of a batch *)
+  Lemma canon_world_with : forall w n, Canon (world_with w n).
+  Proof. intros; split; reflexivity. Qed.
+
   Lemma serve_batch_spec : forall k f ch w rs a' net' n',
-    Good ch -> (w_lat w + 4 <= f)%nat ->
+    Good ch -> Canon w -> (w_lat w + w_prl w + 4 <= f)%nat ->
     spec_micro (repeat MCall k) (abs ch) (w_net w) (w_attempts w) = (rs, a', net', n') ->
     exists ch',
-      serve_batch' f k ch w = (rs, ch', mkWorld net' (w_lat w) n') /\ Good ch' /\ abs ch' = a' /\
+      serve_batch' f k ch w = (rs, ch', mkWorld net' (w_lat w) n' false (w_prl w) (w_prl w)) /\
+      Good ch' /\ abs ch' = a' /\
       rc_i2c (ch_rc ch') + w_attempts w = rc_i2c (ch_rc ch) + n'.
   Proof.
-    induction k as [|k IH]; intros f ch w rs a' net' n' HG Hf Hsp.
-    - simpl in Hsp. inversion Hsp; subst. exists ch. destruct w as [net lat n]. cbn.
+    induction k as [|k IH]; intros f ch w rs a' net' n' HG HW Hf Hsp.
+    - simpl in Hsp. inversion Hsp; subst. exists ch.
+      destruct w as [net lat n rd pl prl]. destruct HW as [Hrd Hpl]. simpl in Hrd, Hpl. subst rd pl. cbn.
       split; [reflexivity|]. split; [assumption|]. split; reflexivity.
     - cbn [repeat spec_micro] in Hsp.
-      destruct (serve_spec f ch w HG Hf) as (ch1 & Es & G1 & A1 & I1).
+      destruct (serve_spec f ch w HG HW Hf) as (ch1 & Es & G1 & A1 & I1).
       destruct (spec_call (abs ch) (w_net w) (w_attempts w)) as [[a1 n1] o] eqn:Ec.
       cbn [fst snd] in Es, A1, I1.
       destruct (spec_micro (repeat MCall k) a1 (w_net w) n1) as [[[rs1 a2] net2] n2] eqn:Er.
       injection Hsp as Hrs Ha Hnet Hn. subst rs a' net' n'.
-      destruct (IH f ch1 (world_with w n1) rs1 a2 net2 n2 G1 Hf) as (ch' & E & G & A & I).
+      destruct (IH f ch1 (world_with w n1) rs1 a2 net2 n2 G1 (canon_world_with w n1) Hf) as (ch' & E & G & A & I).
       { rewrite A1. exact Er. }
       exists ch'. unfold serve_batch' in *. cbn [serve_batch]. fold serve'. rewrite Es. rewrite E.
-      cbn [world_with w_lat w_attempts] in *.
+      cbn [world_with w_lat w_attempts w_prl] in *.
       split; [reflexivity|]. split; [exact G|]. split; [exact A|]. lia.
   Qed.
 
+  Lemma canon_set_net : forall w n, Canon w -> Canon (set_net w n).
+  Proof. intros w n [H1 H2]; split; assumption. Qed.
+
   Lemma run_steps_spec : forall h f ch w rs a' net' n',
-    Good ch -> (w_lat w + 4 <= f)%nat ->
+    Good ch -> Canon w -> (w_lat w + w_prl w + 4 <= f)%nat ->
     spec_steps h (abs ch) (w_net w) (w_attempts w) = (rs, a', net', n') ->
     exists ch',
-      run_steps' f h ch w = (rs, ch', mkWorld net' (w_lat w) n') /\ Good ch' /\ abs ch' = a' /\
+      run_steps' f h ch w = (rs, ch', mkWorld net' (w_lat w) n' false (w_prl w) (w_prl w)) /\
+      Good ch' /\ abs ch' = a' /\
       rc_i2c (ch_rc ch') + w_attempts w = rc_i2c (ch_rc ch) + n'.
   Proof.
     unfold spec_steps.
-    induction h as [|s h IH]; intros f ch w rs a' net' n' HG Hf Hsp.
-    - simpl in Hsp. inversion Hsp; subst. exists ch. destruct w as [net lat n]. cbn.
+    induction h as [|s h IH]; intros f ch w rs a' net' n' HG HW Hf Hsp.
+    - simpl in Hsp. inversion Hsp; subst. exists ch.
+      destruct w as [net lat n rd pl prl]. destruct HW as [Hrd Hpl]. simpl in Hrd, Hpl. subst rd pl. cbn.
       split; [reflexivity|]. split; [assumption|]. split; reflexivity.
     - destruct s as [e|b|k].
       + (* environment event *)
         cbn [flatten spec_micro] in Hsp.
         destruct e as [r| | | |]; cbn [ev_conn ev_net] in Hsp.
-        * destruct (IH f ch (set_net w (Down r)) rs a' net' n' HG Hf Hsp) as (ch' & E & G & A & I).
+        * destruct (IH f ch (set_net w (Down r)) rs a' net' n' HG (canon_set_net w _ HW) Hf Hsp) as (ch' & E & G & A & I).
           exists ch'. split; [exact E|]. split; [exact G|]. split; [exact A| exact I].
-        * destruct (IH f ch (set_net w Up) rs a' net' n' HG Hf Hsp) as (ch' & E & G & A & I).
+        * destruct (IH f ch (set_net w Up) rs a' net' n' HG (canon_set_net w _ HW) Hf Hsp) as (ch' & E & G & A & I).
           exists ch'. split; [exact E|]. split; [exact G|]. split; [exact A| exact I].
-        * destruct (IH f ch (set_net w UpDead) rs a' net' n' HG Hf Hsp) as (ch' & E & G & A & I).
+        * destruct (IH f ch (set_net w UpDead) rs a' net' n' HG (canon_set_net w _ HW) Hf Hsp) as (ch' & E & G & A & I).
           exists ch'. split; [exact E|]. split; [exact G|]. split; [exact A| exact I].
-        * destruct (IH f ch (set_net w UpGarbage) rs a' net' n' HG Hf Hsp) as (ch' & E & G & A & I).
+        * destruct (IH f ch (set_net w UpGarbage) rs a' net' n' HG (canon_set_net w _ HW) Hf Hsp) as (ch' & E & G & A & I).
           exists ch'. split; [exact E|]. split; [exact G|]. split; [exact A| exact I].
         * pose proof (abs_drop_conn true ch) as Ha. cbn [abs_drop] in Ha.
-          destruct (IH f (drop_conn Closed ch) w rs a' net' n' (good_drop _ _ HG) Hf) as (ch' & E & G & A & I).
+          destruct (IH f (drop_conn Closed ch) w rs a' net' n' (good_drop _ _ HG) HW Hf) as (ch' & E & G & A & I).
           { rewrite Ha. exact Hsp. }
           rewrite i2c_drop in I. exists ch'. split; [exact E|]. split; [exact G|]. split; [exact A| exact I].
       + cbn [flatten spec_micro] in Hsp.
-        destruct (IH f (drop_conn (if b then Closed else Severed) ch) w rs a' net' n' (good_drop _ _ HG) Hf)
+        destruct (IH f (drop_conn (if b then Closed else Severed) ch) w rs a' net' n' (good_drop _ _ HG) HW Hf)
           as (ch' & E & G & A & I).
         { rewrite abs_drop_conn. exact Hsp. }
         rewrite i2c_drop in I. exists ch'. split; [exact E|]. split; [exact G|]. split; [exact A| exact I].
@@ -674,18 +700,21 @@ Section Contracts.
         cbn [spec_micro] in Hsp.
         destruct (spec_micro (flatten h) (abs_settle a1) net1 n1) as [[[rs2 a2] net2] n2] eqn:E2.
         injection Hsp as <- <- <- <-.
-        destruct (serve_batch_spec k f ch w rs1 a1 net1 n1 HG Hf E1) as (ch1 & Eb & G1 & A1 & I1).
-        destruct (IH f (settle ch1) (mkWorld net1 (w_lat w) n1) rs2 a2 net2 n2 (good_settle _ G1) Hf)
+        destruct (serve_batch_spec k f ch w rs1 a1 net1 n1 HG HW Hf E1) as (ch1 & Eb & G1 & A1 & I1).
+        destruct (IH f (settle ch1) (mkWorld net1 (w_lat w) n1 false (w_prl w) (w_prl w)) rs2 a2 net2 n2
+                     (good_settle _ G1) (conj eq_refl eq_refl) Hf)
           as (ch' & E & G & A & I).
         { rewrite abs_settle_ch, A1. exact E2. }
         exists ch'. unfold run_steps' in *. cbn [run_steps]. fold serve_batch'. rewrite Eb, E.
-        cbn [w_lat w_attempts] in *. rewrite i2c_settle in I.
+        cbn [w_lat w_attempts w_prl] in *. rewrite i2c_settle in I.
         split; [reflexivity|]. split; [exact G|]. split; [exact A|]. lia.
   Qed.
 
   (* ------------------------------------------------------------ eager connect: ready_oneshot *)
   Definition ro_of (p : pr) : ready_out :=
-    match p with PrReadyOk => RoOk | PrReadyErr e => RoErr e | PrPanic => RoPanic | _ => RoHang end.
+    match p with
+    | PrReadyOk => RoOk | PrReadyErr e => RoErr e | PrPanic => RoPanic | PrMisuse => RoMisuse | _ => RoHang
+    end.
 
   Lemma ready_oneshot_S : forall f rc w,
     ready_oneshot' (S f) rc w =
@@ -693,7 +722,7 @@ Section Contracts.
       | (rc', w', PrPending) => ready_oneshot' f rc' w'
       | (rc', w', p) => (rc', w', ro_of p)
       end.
-  Proof. intros. unfold ready_oneshot', poll_ready'. cbn [ready_oneshot]. destruct (poll_ready cpr mkpr (S f) rc w) as [[rc' w'] []]; reflexivity. Qed.
+  Proof. intros. unfold ready_oneshot', poll_ready'. cbn [ready_oneshot]. destruct (poll_ready cpr (S f) rc w) as [[rc' w'] []]; reflexivity. Qed.
 
   Lemma after_connect_not_pending : forall rc r, snd (after_connect rc r) <> PrPending.
   Proof. intros rc [c|e]; simpl; try discriminate. destruct (negb _); discriminate. Qed.
@@ -715,8 +744,28 @@ Section Contracts.
         destruct rc as [st er hbc lz gh]; simpl in *; subst; auto.
   Qed.
 
+  Lemma ready_oneshot_idle : forall p f rc w,
+    rc_state rc = Idle -> rc_error rc = None -> w_pr_left w = p -> (p + w_lat w + 3 <= f)%nat ->
+    ready_oneshot' f rc w =
+      (let '(rc', q) := after_connect (set_state (note_i2c rc) (Connecting (Fut O (connect_answer w))))
+                                      (connect_answer w) in (rc', bump w, ro_of q)).
+  Proof.
+    induction p as [|p IH]; intros f rc w Hs He Hp Hf; (destruct f as [|f]; try lia);
+      rewrite ready_oneshot_S, poll_ready_no_error by assumption;
+      rewrite (loop_idle (S f) rc w Hs) by lia; rewrite Hp.
+    - cbv zeta. destruct (w_lat w) as [|d] eqn:Hl.
+      + pose proof (after_connect_not_pending
+                      (set_state (note_i2c rc) (Connecting (Fut O (connect_answer w)))) (connect_answer w)) as Hq.
+        destruct (after_connect _ (connect_answer w)) as [rc' q]. destruct q; try reflexivity.
+        simpl in Hq. congruence.
+      + erewrite (ready_oneshot_connecting d f);
+          [| destruct rc; reflexivity | apply connect_answer_usable | destruct rc; assumption | lia].
+        destruct rc; reflexivity.
+    - rewrite (IH f rc (set_pr_left w p) Hs He); [destruct w; reflexivity | reflexivity | cbn; lia].
+  Qed.
+
   Lemma build_eager : forall f w,
-    (w_lat w + 4 <= f)%nat ->
+    (w_pr_left w + w_lat w + 4 <= f)%nat ->
     build' false f w =
       match w_net w with
       | Up => (Some (mkChan (mkRc (Connected Alive) None true false 1) None), bump w, Some RoOk)
@@ -726,13 +775,8 @@ Section Contracts.
       end.
   Proof.
     intros f w Hf. unfold build', build. fold ready_oneshot'.
-    destruct f as [|f]; try lia. rewrite ready_oneshot_S, poll_ready_no_error by reflexivity.
-    rewrite (loop_idle (S f) (new_reconnect false) w) by (reflexivity || lia). cbv zeta.
-    pose proof (connect_answer_usable w) as Hu. unfold connect_answer in *.
-    destruct (w_lat w) as [|d] eqn:Hl.
-    - destruct (w_net w); reflexivity.
-    - erewrite (ready_oneshot_connecting d f); [| reflexivity | exact Hu | reflexivity | lia].
-      destruct (w_net w); reflexivity.
+    rewrite (ready_oneshot_idle (w_pr_left w) f (new_reconnect false) w) by (reflexivity || lia).
+    unfold connect_answer. destruct (w_net w); reflexivity.
   Qed.
 
   (* ------------------------------------------------------------ whole runs *)
@@ -746,27 +790,30 @@ Section Contracts.
          | UpDead => mkRun (Some (RoErr (mkErr 1 0 Handshake))) [] 1 None
          end.
 
-  Lemma run_with_spec : forall f is_lazy lat net0 h,
-    (lat + 4 <= f)%nat -> run_with' f is_lazy lat net0 h = spec_result is_lazy net0 h.
+  Lemma run_with_spec : forall f is_lazy lat prl net0 h,
+    (lat + prl + 4 <= f)%nat -> run_with' f is_lazy lat prl net0 h = spec_result is_lazy net0 h.
   Proof.
-    intros f is_lazy lat net0 h Hf. unfold run_with', run_with. fold build'.
+    intros f is_lazy lat prl net0 h Hf. unfold run_with', run_with. fold build'.
     destruct is_lazy.
     - unfold build', build. cbn [spec_result].
       destruct (spec_steps h ANone net0 0) as [[[rs a'] net'] n'] eqn:Es.
       assert (G : Good (mkChan (new_reconnect true) None)) by (constructor; simpl; auto).
-      destruct (run_steps_spec h f (mkChan (new_reconnect true) None) (mkWorld net0 lat 0) rs a' net' n' G Hf Es)
+      destruct (run_steps_spec h f (mkChan (new_reconnect true) None) (init_world net0 lat prl) rs a' net' n' G
+                               (conj eq_refl eq_refl) Hf Es)
         as (ch' & E & _ & _ & I).
-      fold run_steps'. rewrite E. cbn [ch_rc rc_i2c w_attempts new_reconnect] in I. cbn [w_attempts]. f_equal. f_equal. lia.
-    - rewrite build_eager by exact Hf. cbn [w_net bump w_lat w_attempts spec_result].
+      fold run_steps'. rewrite E. cbn [ch_rc rc_i2c w_attempts new_reconnect init_world] in I. cbn [w_attempts]. f_equal. f_equal. lia.
+    - rewrite build_eager by (cbn; lia). cbn [init_world w_net bump w_lat w_attempts w_prl spec_result].
       destruct net0 as [|r| |]; try reflexivity.
       + destruct (spec_steps h AAlive Up 1) as [[[rs a'] net'] n'] eqn:Es.
         assert (G : Good (mkChan (mkRc (Connected Alive) None true false 1) None)) by (constructor; simpl; auto).
-        destruct (run_steps_spec h f _ (mkWorld Up lat (0 + 1)) rs a' net' n' G Hf Es) as (ch' & E & _ & _ & I).
-        fold run_steps'. unfold bump. cbn [w_net w_lat w_attempts]. rewrite E. cbn [ch_rc rc_i2c w_attempts new_reconnect] in I. cbn [w_attempts]. f_equal. f_equal. lia.
+        destruct (run_steps_spec h f _ (mkWorld Up lat (0 + 1) false prl prl) rs a' net' n' G
+                                 (conj eq_refl eq_refl) Hf Es) as (ch' & E & _ & _ & I).
+        fold run_steps'. unfold bump, init_world. cbn [w_net w_lat w_attempts w_prl]. rewrite E. cbn [ch_rc rc_i2c w_attempts new_reconnect init_world] in I. cbn [w_attempts]. f_equal. f_equal. lia.
       + destruct (spec_steps h ANone UpGarbage 1) as [[[rs a'] net'] n'] eqn:Es.
         assert (G : Good (mkChan (mkRc (Connected Closed) None true false 1) None)) by (constructor; simpl; auto).
-        destruct (run_steps_spec h f _ (mkWorld UpGarbage lat (0 + 1)) rs a' net' n' G Hf Es) as (ch' & E & _ & _ & I).
-        fold run_steps'. unfold bump. cbn [w_net w_lat w_attempts]. rewrite E. cbn [ch_rc rc_i2c w_attempts new_reconnect] in I. cbn [w_attempts]. f_equal. f_equal. lia.
+        destruct (run_steps_spec h f _ (mkWorld UpGarbage lat (0 + 1) false prl prl) rs a' net' n' G
+                                 (conj eq_refl eq_refl) Hf Es) as (ch' & E & _ & _ & I).
+        fold run_steps'. unfold bump, init_world. cbn [w_net w_lat w_attempts w_prl]. rewrite E. cbn [ch_rc rc_i2c w_attempts new_reconnect init_world] in I. cbn [w_attempts]. f_equal. f_equal. lia.
   Qed.
 End Contracts.
 
@@ -819,12 +866,11 @@ Qed.
 Section Theorems.
   Variable cpr : conn -> poll (result unit unit).
   Variable sreq : conn -> send_result.
-  Variable mkpr : poll (result unit cerr).
-  Hypothesis HC : stack_contract cpr sreq mkpr.
-  Variables (fuel : nat) (is_lazy : bool) (lat : nat) (net0 : reach).
-  Hypothesis Hfuel : enough_fuel lat fuel.
+  Hypothesis HC : stack_contract cpr sreq.
+  Variables (fuel : nat) (is_lazy : bool) (lat prl : nat) (net0 : reach).
+  Hypothesis Hfuel : enough_fuel lat prl fuel.
 
-  Let R (h : list step) : run_result := run_with cpr sreq mkpr fuel is_lazy lat net0 h.
+  Let R (h : list step) : run_result := run_with cpr sreq fuel is_lazy lat prl net0 h.
 
   Lemma R_spec : forall h, R h = spec_result is_lazy net0 h.
   Proof. intro h. unfold R. apply run_with_spec; assumption. Qed.
@@ -862,6 +908,28 @@ Section Theorems.
     - eapply Forall_impl; [|apply own_records]. intros c [E|[E|(e & E & _)]]; rewrite E; discriminate.
   Qed.
 
+  (* ---- connector_protocol_respected: the connector is never `call`ed without a Ready poll_ready
+     since its previous call - neither by the eager connect nor inside any call of any history *)
+  Theorem connector_protocol_respected : forall h,
+    r_eager (R h) <> Some RoMisuse /\
+    Forall (fun c => rec_outcome c <> ConnectorMisuse) (r_calls (R h)) /\
+    misuses (R h) = 0.
+  Proof.
+    intro h.
+    assert (E : r_eager (R h) <> Some RoMisuse)
+      by (destruct (eager_result_cases h) as [E|[E|[e E]]]; rewrite E; discriminate).
+    assert (F : Forall (fun c => rec_outcome c <> ConnectorMisuse) (r_calls (R h))).
+    { eapply Forall_impl; [|apply own_records]. intros c [X|[X|(e & X & _)]]; rewrite X; discriminate. }
+    split; [exact E|]. split; [exact F|].
+    unfold misuses.
+    assert ((match r_eager (R h) with Some RoMisuse => 1 | _ => 0 end) = 0) as ->.
+    { destruct (r_eager (R h)) as [[]|]; try reflexivity. congruence. }
+    assert (filter (fun c : call_rec => match snd (fst c) with ConnectorMisuse => true | _ => false end)
+                   (r_calls (R h)) = []) as ->; [|reflexivity].
+    induction F as [|c l Hc F IH]; [reflexivity|]. cbn [filter]. unfold rec_outcome in Hc.
+    destruct (snd (fst c)); try exact IH. congruence.
+  Qed.
+
   (* ---- call_definite *)
   Theorem call_definite : forall h,
     (* building the channel neither hangs nor panics *)
@@ -870,7 +938,7 @@ Section Theorems.
     (built is_lazy net0 -> length (r_calls (R h)) = count_calls h) /\
     (* never out of fuel (stuck), never a panic, never a failed Buffer worker *)
     Forall (fun c => rec_outcome c <> OutOfFuel /\ rec_outcome c <> Panic /\
-                     rec_outcome c <> WorkerClosed /\
+                     rec_outcome c <> WorkerClosed /\ rec_outcome c <> ConnectorMisuse /\
                      forall e, rec_outcome c <> ServiceFailed e) (r_calls (R h)) /\
     (* on the property's alphabet, at quiescent points: a response, or a connect error (refused,
        or failed handshake), which is UNAVAILABLE *)
@@ -1053,31 +1121,31 @@ Section Theorems.
 End Theorems.
 
 Theorem eager_initial_failure_immediate :
-  forall cpr sreq mkpr, stack_contract cpr sreq mkpr ->
-  forall fuel lat reason h, enough_fuel lat fuel ->
-    run_with cpr sreq mkpr fuel false lat (Down reason) h =
+  forall cpr sreq, stack_contract cpr sreq ->
+  forall fuel lat prl reason h, enough_fuel lat prl fuel ->
+    run_with cpr sreq fuel false lat prl (Down reason) h =
       mkRun (Some (RoErr (mkErr 1 reason Refused))) [] 1 None.
 Proof. intros. rewrite run_with_spec by assumption. reflexivity. Qed.
 
 Theorem eager_handshake_failure_immediate :
-  forall cpr sreq mkpr, stack_contract cpr sreq mkpr ->
-  forall fuel lat h, enough_fuel lat fuel ->
-    run_with cpr sreq mkpr fuel false lat UpDead h =
+  forall cpr sreq, stack_contract cpr sreq ->
+  forall fuel lat prl h, enough_fuel lat prl fuel ->
+    run_with cpr sreq fuel false lat prl UpDead h =
       mkRun (Some (RoErr (mkErr 1 0 Handshake))) [] 1 None.
 Proof. intros. rewrite run_with_spec by assumption. reflexivity. Qed.
 
 Theorem eager_initial_success :
-  forall cpr sreq mkpr, stack_contract cpr sreq mkpr ->
-  forall fuel lat h, enough_fuel lat fuel ->
-    r_eager (run_with cpr sreq mkpr fuel false lat Up h) = Some RoOk.
+  forall cpr sreq, stack_contract cpr sreq ->
+  forall fuel lat prl h, enough_fuel lat prl fuel ->
+    r_eager (run_with cpr sreq fuel false lat prl Up h) = Some RoOk.
 Proof.
   intros. rewrite run_with_spec by assumption. cbn [spec_result].
   destruct (spec_steps h AAlive Up 1) as [[[rs a'] net'] n']. reflexivity.
 Qed.
 
 (* the assumed stack is satisfiable: it is the instance the correspondence run evaluates *)
-Lemma real_stack_contract : stack_contract real_conn_poll_ready real_send_request real_mk_poll_ready.
+Lemma real_stack_contract : stack_contract real_conn_poll_ready real_send_request.
 Proof. constructor; reflexivity. Qed.
 
-Lemma fuel_for_enough : forall lat, enough_fuel lat (fuel_for lat).
-Proof. intro lat. unfold enough_fuel, fuel_for. lia. Qed.
+Lemma fuel_for_enough : forall lat prl, enough_fuel lat prl (fuel_for lat prl).
+Proof. intros lat prl. unfold enough_fuel, fuel_for. lia. Qed.
